@@ -188,3 +188,108 @@ package jrpc2
 //@ func ServerFromContext
 //@   requires ctx != nil && typeis(ctxValue(ctx, boxof(0, "jrpc2.serverKey")), "*jrpc2.Server")
 //@   ensures[C17:server] result == unboxas(ctxValue(ctx, boxof(0, "jrpc2.serverKey")), "*jrpc2.Server")
+
+// ---------------------------------------------------------------------------
+// Server: monitor for s.mu (C07 C08 C09 C10)
+// ---------------------------------------------------------------------------
+
+//@ iface sender.Send
+//@   modifies chSends(self)
+//@   ensures chSends(self) == old(chSends(self)) + 1
+//@ iface receiver.Recv
+//@   modifies chRecvs(self)
+//@   ensures chRecvs(self) == old(chRecvs(self)) + 1
+
+// CancelFunc values stored in the reservation table; fired(f) records the call.
+//@ role functype context.CancelFunc
+//@   modifies fired(self)
+//@   ensures fired(self)
+//@ role field Response.cancel
+//@   modifies fired(self)
+//@   ensures fired(self)
+
+// slotOpen(r): r's one-slot delivery channel has not been written or closed.
+//@ pure slotOpen(r *Response) Bool = r != nil && r.cancel != nil && r.ch != nil && chantyped(r.ch) && !chanclosed(r.ch) && chanlen(r.ch) == 0 && chancap(r.ch) == 1 && chansends(r.ch) == 0
+
+// batchOK(b): a batch as produced by the reader: non-empty, no nil member.
+//@ pure batchOK(b Slice) Bool = len(b) >= 1 && forall(i int, 0 <= i && i < len(b) ==> b[i] != nil)
+
+//@ globalinv rpcErrorsCount != nil && rpcRequestsCount != nil && bytesReadCount != nil && bytesWrittenCount != nil && rpcCallsPushed != nil && rpcNotificationsPushed != nil && serversActiveGauge != nil && serverMetrics != nil
+
+//@ monitor Server.mu owner s
+//@   guards s.err, s.work, s.ch, map(s.used), map(s.call), s.callID, qlen(fieldaddr(s, inq))
+//@   invariant[C08:M1] s.ch != nil ==> s.work != nil && !chanclosed(s.work)
+//@   invariant[C07:M4] forall(k string, in(s.used, k) ==> lookup(s.used, k) != nil && k != "")
+//@   invariant[C09:M3] forall(k string, in(s.call, k) ==> slotOpen(lookup(s.call, k)) && lookup(s.call, k).id == k)
+//@   invariant[C08:Q] qlen(fieldaddr(s, inq)) >= 0
+
+//@ immutable Server.mux Server.sem Server.allowP Server.log Server.rpcLog Server.newctx Server.builtin Server.mu Server.used Server.call
+
+// encode sends at most one record, and exactly one when it reports success.
+// Only non-empty message lists are ever encoded (C10: whole messages).
+//@ func encode
+//@   requires ch != nil && len(rsps) >= 1
+//@   modifies chSends(ch)
+//@   ensures chSends(ch) == old(chSends(ch)) || chSends(ch) == old(chSends(ch)) + 1
+//@   ensures result1 == nil ==> chSends(ch) == old(chSends(ch)) + 1
+
+//@ func (*jmessages).parseJSON
+//@   modifies *j
+//@   ensures forall(i int, 0 <= i && i < len(*j) ==> (*j)[i] != nil)
+
+// cancelLocked: fires and releases exactly the named reservation.
+//@ func (*Server).cancelLocked
+//@   requires wfServer(s) && held(s.mu) && Server_mu_inv(s)
+//@   modifies map(s.used), fired
+//@   ensures[C07:found] result == old(in(s.used, id))
+//@   ensures[C07:released] !in(s.used, id)
+//@   ensures[C07:others-kept] forall(k string, k != id ==> in(s.used, k) == old(in(s.used, k)) && lookup(s.used, k) == old(lookup(s.used, k)))
+//@   ensures[C07:fired-only-target] forall(f Int, f != old(lookup(s.used, id)) ==> fired(f) == old(fired(f)))
+//@   ensures[C07:miss-is-noop] !old(in(s.used, id)) ==> forall(f Int, fired(f) == old(fired(f)))
+//@   ensures Server_mu_inv(s)
+
+// pushErrorLocked answers directly with one id-null error object.
+//@ func (*Server).pushErrorLocked
+//@   requires wfServer(s) && held(s.mu) && s.ch != nil && err != nil
+//@   modifies chSends(s.ch)
+//@   at call.encode#1 assert[C10:send-under-lock] held(s.mu)
+//@   ensures[C02:one-reply] chSends(s.ch) == old(chSends(s.ch)) || chSends(s.ch) == old(chSends(s.ch)) + 1
+
+// stopLocked: idempotent; closes the channel exactly once, releases every
+// reservation, cancels outstanding callbacks, closes the wake-up channel,
+// records the FIRST cause.
+//@ func (*Server).stopLocked
+//@   requires wfServer(s) && held(s.mu) && Server_mu_inv(s)
+//@   modifies s.err, s.ch, map(s.used), fired, qlen(fieldaddr(s, inq)), chCloses(s.ch)
+//@   ensures[C08:stopped] s.ch == nil
+//@   ensures[C08:first-cause] old(s.ch) != nil ==> s.err == err
+//@   ensures[C08:idempotent] old(s.ch) == nil ==> s.err == old(s.err) && qlen(fieldaddr(s, inq)) == old(qlen(fieldaddr(s, inq))) && forall(k string, in(s.used, k) == old(in(s.used, k))) && forall(f Int, fired(f) == old(fired(f)))
+//@   ensures[C08:work-closed] old(s.ch) != nil ==> chanclosed(s.work)
+//@   ensures[C07:all-released] old(s.ch) != nil ==> forall(k string, !in(s.used, k))
+//@   ensures[C10:one-close] old(s.ch) != nil ==> chCloses(old(s.ch)) == old(chCloses(old(s.ch))) + 1
+//@   ensures[C10:no-second-close] old(s.ch) == nil ==> forall(c Iface, chCloses(c) == old(chCloses(c)))
+//@   ensures Server_mu_inv(s)
+//@   at call.Close#1 assert[C10:close-under-lock] held(s.mu)
+//@   loop 1 invariant qlen(fieldaddr(s, inq)) >= 0
+//@   loop 2 invariant forall(k string, in(s.call, k) ==> slotOpen(lookup(s.call, k)))
+//@   loop 3 invariant forall(k string, in(s.used, k) ==> lookup(s.used, k) != nil && k != "") && forall(k string, visited(loop3, k) ==> !in(s.used, k))
+
+// The Each callback of stopLocked: keeps M4 while releasing queued calls.
+//@ func (*Server).stopLocked$1
+//@   requires wfServer(s) && held(s.mu) && Server_mu_inv(s)
+//@   requires forall(i int, 0 <= i && i < len(keep) ==> keep[i] != nil)
+//@   modifies map(s.used), fired, keep
+//@   loop 1 invariant Server_mu_inv(s) && forall(i int, 0 <= i && i < len(keep) ==> keep[i] != nil)
+
+//@ func (*Server).Stop
+//@   requires wfServer(s) && !held(s.mu)
+//@   modifies monitor(Server, s), fired, chCloses
+//@   ensures !held(s.mu)
+
+// read: the one receiver. Every iteration takes the lock once; a Recv failure
+// stops the server and is the only way out of the loop.
+//@ func (*Server).read
+//@   requires wfServer(s) && ch != nil && !held(s.mu)
+//@   modifies monitor(Server, s), fired, chCloses, chSends, chRecvs(ch), held(s.mu)
+//@   ensures !held(s.mu)
+//@   loop 1 invariant !held(s.mu)
